@@ -43,6 +43,8 @@ func init() {
 			{ID: "C17-R18", Title: "the loader does not single out names", Floor: 1, Run: theLoaderDoesNotSingleOutNames},
 			{ID: "C17-R19", Title: "numbering continues where the code handed in left off", Floor: 1, Run: numberingContinuesWhereTheCodeLeftOff},
 			{ID: "C17-R20", Title: "the marshaller refuses what the loader cannot read", Floor: 2, Run: theMarshallerRefusesWhatTheLoaderCannotRead},
+			{ID: "C17-R21", Title: "the loader limits what the compiler limits", Floor: 1, Run: theLoaderLimitsWhatTheCompilerLimits},
+			{ID: "C17-R22", Title: "the writers of the stored form agree", Floor: 2, Run: theWritersOfTheStoredFormAgree},
 		},
 	})
 }
